@@ -142,6 +142,18 @@ def body_cache(case, rec):
     nt = any(len(ref.acgt_runs(r["seq"])) >= 3 for r in recs)
     rec.note(case, nt, ())
     with fa.TempFasta(data) as path:
+        if case.get("stale"):
+            # cache files of ANOTHER file, not strictly newer than this FASTA: they have to be rebuilt
+            import os
+
+            other = gen.fasta_bytes(case["stale"])
+            path.write_bytes(other)
+            FastaIndex(path, case["buffer"]).auto_load()
+            path.write_bytes(data)
+            mt = path.stat().st_mtime_ns
+            back = 0 if case.get("stale_equal") else 10**9
+            for sfx in (".fai", ".agp"):
+                os.utime(path.with_name(path.name + sfx), ns=(mt - back, mt - back))
         fai = FastaIndex(path, case["buffer"])
         must(fai.auto_load, what="auto_load")
         text = path.with_name(path.name + ".agp").read_text()
@@ -173,13 +185,19 @@ def cli_cases(draw):
 def cache_cases(draw):
     f = draw(gen.fasta_file(max_records=4))
     f["records"] = [r for r in f["records"] if not r[0].startswith("#")] or [["r1", "", "ACGT", 60, "\n"]]
-    return {"fasta": f, "buffer": draw(st.sampled_from([1, 3, 64, 250000]))}
+    case = {"fasta": f, "buffer": draw(st.sampled_from([1, 3, 64, 250000]))}
+    if draw(st.booleans()):
+        g = draw(gen.fasta_file(max_records=3, min_len=1))
+        g["records"] = [r for r in g["records"] if not r[0].startswith("#")] or [["r1", "", "ACGTAC", 60, "\n"]]
+        case["stale"] = g
+        case["stale_equal"] = draw(st.booleans())
+    return case
 
 
 SUBS = [
     Sub("format", kind="hyp", strategy=format_cases, body=body_format,
         budget={"quick": 8000, "thorough": 150000}, desc="format_agp on arbitrary assemblies"),
-    Sub("remap", kind="hyp", strategy=c01.cases, body=body_remap,
+    Sub("remap", kind="hyp", strategy=lambda: c01.cases().map(lambda c: {k: v for k, v in c.items() if k != "no_default_gap"}), body=body_remap,
         budget={"quick": 12000, "thorough": 250000}, desc="format_agp on every assembly returned by remapping"),
     Sub("cli", kind="hyp", strategy=cli_cases, body=body_cli,
         budget={"quick": 240, "thorough": 3000}, desc="AGP files written by pretext-to-asm (plain and FASTA companion + cache) and asm-format"),
